@@ -1,5 +1,690 @@
-//! pure-probe suite `cursor` (see /verif/ARCH.md). STUB — to be replaced.
-use crate::util::Tier;
-use std::io::Write;
+//! pure-probe suite `cursor` (property C02, see /verif/ARCH.md and lean/FatVerif/Model/CursorDriver.lean).
+//!
+//! One line per HISTORY on one file (`cursor.hist`) or on 2–3 interleaved files of one volume (`cursor.multi`):
+//!
+//! ```text
+//! P cursor.hist  cs=<n> fat=<bits> free=<n> <op;op;…>               => <res;res;…>
+//! P cursor.multi cs=<n> fat=<bits> free=<n> files=<k> <i:op;i:op;…> => <res;res;…>
+//! ```
+//!
+//! Every history runs on a fresh copy of a volume formatted with `fatfs::format_volume` in an in-memory device,
+//! mounted with a constant `TimeProvider`; the ops go through the public API of the real `fatfs::File` only.
+use crate::rng::SplitMix64;
+use crate::util::{catch, hex, Tier};
+use fatfs::{
+    Date, DateTime, FatType, FileSystem, FormatVolumeOptions, FsOptions, IoBase, LossyOemCpConverter, Read, Seek,
+    SeekFrom, Time, TimeProvider, Write,
+};
+use std::collections::HashMap;
+use std::fmt::Write as _;
+use std::rc::Rc;
 
-pub fn run(_tier: Tier, _seed: u64, _out: &mut dyn Write) {}
+// ---------------------------------------------------------------------------------------------------------------
+// in-memory device: fixed capacity, sparse 4 KiB pages, copy-on-write over a shared formatted template
+// ---------------------------------------------------------------------------------------------------------------
+
+const PAGE: usize = 4096;
+type Page = Box<[u8; PAGE]>;
+
+#[derive(Clone)]
+struct MemDev {
+    base: Rc<HashMap<u64, Page>>,
+    over: HashMap<u64, Page>,
+    size: u64,
+    pos: u64,
+}
+
+impl MemDev {
+    fn new(size: u64) -> Self {
+        MemDev { base: Rc::new(HashMap::new()), over: HashMap::new(), size, pos: 0 }
+    }
+    /// freeze the current content as the shared template
+    fn freeze(mut self) -> Self {
+        let mut all: HashMap<u64, Page> = (*self.base).clone();
+        for (k, v) in self.over.drain() {
+            all.insert(k, v);
+        }
+        MemDev { base: Rc::new(all), over: HashMap::new(), size: self.size, pos: 0 }
+    }
+    fn page(&self, n: u64) -> Option<&Page> {
+        self.over.get(&n).or_else(|| self.base.get(&n))
+    }
+    fn page_mut(&mut self, n: u64) -> &mut Page {
+        if !self.over.contains_key(&n) {
+            let p: Page = match self.base.get(&n) {
+                Some(p) => p.clone(),
+                None => Box::new([0u8; PAGE]),
+            };
+            self.over.insert(n, p);
+        }
+        self.over.get_mut(&n).unwrap()
+    }
+}
+
+impl IoBase for MemDev {
+    type Error = ();
+}
+
+impl Read for MemDev {
+    fn read(&mut self, buf: &mut [u8]) -> Result<usize, ()> {
+        let avail = self.size.saturating_sub(self.pos);
+        let n = (buf.len() as u64).min(avail) as usize;
+        let mut done = 0;
+        while done < n {
+            let p = self.pos + done as u64;
+            let off = (p % PAGE as u64) as usize;
+            let chunk = (PAGE - off).min(n - done);
+            match self.page(p / PAGE as u64) {
+                Some(pg) => buf[done..done + chunk].copy_from_slice(&pg[off..off + chunk]),
+                None => buf[done..done + chunk].fill(0),
+            }
+            done += chunk;
+        }
+        self.pos += n as u64;
+        Ok(n)
+    }
+}
+
+impl Write for MemDev {
+    fn write(&mut self, buf: &[u8]) -> Result<usize, ()> {
+        let avail = self.size.saturating_sub(self.pos);
+        let n = (buf.len() as u64).min(avail) as usize;
+        let mut done = 0;
+        while done < n {
+            let p = self.pos + done as u64;
+            let off = (p % PAGE as u64) as usize;
+            let chunk = (PAGE - off).min(n - done);
+            let pg = self.page_mut(p / PAGE as u64);
+            pg[off..off + chunk].copy_from_slice(&buf[done..done + chunk]);
+            done += chunk;
+        }
+        self.pos += n as u64;
+        Ok(n)
+    }
+    fn flush(&mut self) -> Result<(), ()> {
+        Ok(())
+    }
+}
+
+impl Seek for MemDev {
+    fn seek(&mut self, pos: SeekFrom) -> Result<u64, ()> {
+        let new = match pos {
+            SeekFrom::Start(n) => Some(n as i128),
+            SeekFrom::Current(d) => Some(self.pos as i128 + d as i128),
+            SeekFrom::End(d) => Some(self.size as i128 + d as i128),
+        };
+        match new {
+            Some(n) if n >= 0 && n <= u64::MAX as i128 => {
+                self.pos = n as u64;
+                Ok(self.pos)
+            }
+            _ => Err(()),
+        }
+    }
+}
+
+#[derive(Debug, Clone, Copy)]
+struct ConstClock;
+
+impl TimeProvider for ConstClock {
+    fn get_current_date(&self) -> Date {
+        Date::new(2020, 2, 2)
+    }
+    fn get_current_date_time(&self) -> DateTime {
+        DateTime::new(Date::new(2020, 2, 2), Time::new(12, 34, 56, 780))
+    }
+}
+
+type Fs = FileSystem<MemDev, ConstClock, LossyOemCpConverter>;
+type FFile<'a> = fatfs::File<'a, MemDev, ConstClock, LossyOemCpConverter>;
+
+fn mount(dev: MemDev) -> Option<Fs> {
+    FileSystem::new(dev, FsOptions::new().time_provider(ConstClock)).ok()
+}
+
+// ---------------------------------------------------------------------------------------------------------------
+// volumes
+// ---------------------------------------------------------------------------------------------------------------
+
+#[derive(Clone)]
+struct Volume {
+    cs: u32,
+    fat: u8,
+    template: MemDev,
+    weight: u64,
+}
+
+fn fat_bits(t: FatType) -> u8 {
+    match t {
+        FatType::Fat12 => 12,
+        FatType::Fat16 => 16,
+        FatType::Fat32 => 32,
+    }
+}
+
+fn make_volume(cs: u32, fat: Option<FatType>, total_sectors: u32, weight: u64) -> Option<Volume> {
+    let mut dev = MemDev::new(u64::from(total_sectors) * 512);
+    let mut opts = FormatVolumeOptions::new().bytes_per_sector(512).bytes_per_cluster(cs).total_sectors(total_sectors);
+    if let Some(ft) = fat {
+        opts = opts.fat_type(ft);
+    }
+    let ok = catch(|| fatfs::format_volume(&mut dev, opts).is_ok()).unwrap_or(false);
+    if !ok {
+        return None;
+    }
+    dev.pos = 0;
+    let template = dev.freeze();
+    let fs = catch(|| mount(template.clone())).flatten()?;
+    let bits = fat_bits(fs.fat_type());
+    if fs.cluster_size() != cs {
+        return None;
+    }
+    Some(Volume { cs, fat: bits, template, weight })
+}
+
+/// a FAT12 volume with about `want` free clusters (the smallest that formats and mounts with at least that many)
+fn make_tiny(cs: u32, want: u32, weight: u64) -> Option<Volume> {
+    let spc = cs / 512;
+    let mut total = 8 + want * spc;
+    for _ in 0..400 {
+        if let Some(v) = make_volume(cs, Some(FatType::Fat12), total, weight) {
+            let free = catch(|| mount(v.template.clone()).and_then(|fs| fs.stats().ok().map(|s| s.free_clusters())))
+                .flatten();
+            if let Some(f) = free {
+                if f >= want {
+                    return Some(v);
+                }
+            }
+        }
+        total += 1;
+    }
+    None
+}
+
+fn volumes() -> Vec<Volume> {
+    let mut v = Vec::new();
+    for &(cs, w) in &[(512u32, 40u64), (1024, 25), (4096, 12), (32768, 3)] {
+        let spc = cs / 512;
+        // roomy volumes of each FAT type: allocation never fails
+        for &(ft, clusters, wf) in
+            &[(FatType::Fat12, 1000u32, 3u64), (FatType::Fat16, 5000, 2), (FatType::Fat32, 66000, 2)]
+        {
+            let total = clusters * spc + 1200;
+            if let Some(vol) = make_volume(cs, Some(ft), total, w * wf) {
+                v.push(vol);
+            }
+        }
+    }
+    // tiny volumes: allocation fails after a few clusters (NotEnoughSpace = E9)
+    for &(cs, want) in &[(512u32, 1u32), (512, 2), (512, 3), (512, 5), (512, 9), (1024, 2), (1024, 4), (4096, 3)] {
+        if let Some(vol) = make_tiny(cs, want, 12) {
+            v.push(vol);
+        }
+    }
+    v
+}
+
+// ---------------------------------------------------------------------------------------------------------------
+// ops
+// ---------------------------------------------------------------------------------------------------------------
+
+#[derive(Clone, Debug)]
+enum Data {
+    Hex(Vec<u8>),
+    Pat(usize, u32),
+}
+
+fn pattern_byte(seed: u32, i: usize) -> u8 {
+    ((seed as usize + i + i / 256 * 37 + i / 65536 * 101) % 256) as u8
+}
+
+impl Data {
+    fn bytes(&self) -> Vec<u8> {
+        match self {
+            Data::Hex(b) => b.clone(),
+            Data::Pat(n, seed) => (0..*n).map(|i| pattern_byte(*seed, i)).collect(),
+        }
+    }
+    fn tok(&self) -> String {
+        match self {
+            Data::Hex(b) => hex(b),
+            Data::Pat(n, seed) => format!("*{}*{}", n, seed),
+        }
+    }
+}
+
+#[derive(Clone, Debug)]
+enum Op {
+    Read(usize),
+    ReadExact(usize),
+    Write(Data),
+    WriteAll(Data),
+    SeekStart(u64),
+    SeekCur(i64),
+    SeekEnd(i64),
+    Truncate,
+    Flush,
+    Reopen,
+}
+
+impl Op {
+    fn tok(&self) -> String {
+        match self {
+            Op::Read(n) => format!("r{}", n),
+            Op::ReadExact(n) => format!("R{}", n),
+            Op::Write(d) => format!("w{}", d.tok()),
+            Op::WriteAll(d) => format!("W{}", d.tok()),
+            Op::SeekStart(n) => format!("ss{}", n),
+            Op::SeekCur(n) => format!("sc{}", n),
+            Op::SeekEnd(n) => format!("se{}", n),
+            Op::Truncate => "t".into(),
+            Op::Flush => "f".into(),
+            Op::Reopen => "x".into(),
+        }
+    }
+}
+
+fn fnv1a(bytes: &[u8]) -> u64 {
+    let mut h: u64 = 0xcbf2_9ce4_8422_2325;
+    for b in bytes {
+        h ^= u64::from(*b);
+        h = h.wrapping_mul(0x0000_0100_0000_01b3);
+    }
+    h
+}
+
+fn bytes_tok(b: &[u8]) -> String {
+    if b.len() <= 32 {
+        hex(b)
+    } else {
+        format!("#{}.{:016x}", b.len(), fnv1a(b))
+    }
+}
+
+type FErr = fatfs::Error<()>;
+
+fn err_tok(e: &FErr) -> String {
+    format!("E{}", fatfs::verif::error_code(e))
+}
+
+/// position of the handle through the public API (`seek(Current(0))` takes the same-offset shortcut)
+fn err_at(e: &FErr, f: &mut FFile) -> String {
+    match f.seek(SeekFrom::Current(0)) {
+        Ok(p) => format!("E{}@{}", fatfs::verif::error_code(e), p),
+        Err(_) => format!("E{}@?", fatfs::verif::error_code(e)),
+    }
+}
+
+/// what the generator knows about a file (from the implementation's own answers)
+#[derive(Clone, Copy, Default)]
+struct Shadow {
+    pos: u64,
+    size: u64,
+}
+
+/// run one op on the real file; `None` = panic
+fn exec<'a>(
+    op: &Op,
+    slot: &mut Option<FFile<'a>>,
+    root: &fatfs::Dir<'a, MemDev, ConstClock, LossyOemCpConverter>,
+    name: &str,
+    sh: &mut Shadow,
+) -> Option<String> {
+    catch(|| {
+        if let Op::Reopen = op {
+            // drop the handle (flushes the entry), read everything back through a temporary handle, open again
+            drop(slot.take());
+            let content: Result<Vec<u8>, FErr> = (|| {
+                let mut t = root.open_file(name)?;
+                let size = t.seek(SeekFrom::End(0))?;
+                t.seek(SeekFrom::Start(0))?;
+                let mut buf = vec![0u8; size as usize];
+                match t.read_exact(&mut buf) {
+                    Ok(()) => Ok(buf),
+                    Err(e) => Err(e),
+                }
+            })();
+            return match root.open_file(name) {
+                Ok(f) => {
+                    *slot = Some(f);
+                    sh.pos = 0;
+                    match content {
+                        Ok(c) => {
+                            sh.size = c.len() as u64;
+                            format!("={}", bytes_tok(&c))
+                        }
+                        Err(e) => format!("{}@0", err_tok(&e)),
+                    }
+                }
+                Err(e) => err_tok(&e),
+            };
+        }
+        let f = slot.as_mut().expect("live handle");
+        match op {
+            Op::Read(n) => {
+                let mut buf = vec![0xEEu8; *n];
+                match f.read(&mut buf) {
+                    Ok(k) => {
+                        sh.pos += k as u64;
+                        if k > *n {
+                            format!("#{}.toolong", k)
+                        } else {
+                            bytes_tok(&buf[..k])
+                        }
+                    }
+                    Err(e) => err_tok(&e),
+                }
+            }
+            Op::ReadExact(n) => {
+                let mut buf = vec![0xEEu8; *n];
+                match f.read_exact(&mut buf) {
+                    Ok(()) => {
+                        sh.pos += *n as u64;
+                        bytes_tok(&buf)
+                    }
+                    Err(e) => {
+                        let t = err_at(&e, f);
+                        sh.pos = sh.size;
+                        t
+                    }
+                }
+            }
+            Op::Write(d) => {
+                let b = d.bytes();
+                match f.write(&b) {
+                    Ok(k) => {
+                        sh.pos += k as u64;
+                        sh.size = sh.size.max(sh.pos);
+                        format!("{}", k)
+                    }
+                    Err(e) => err_tok(&e),
+                }
+            }
+            Op::WriteAll(d) => {
+                let b = d.bytes();
+                match f.write_all(&b) {
+                    Ok(()) => {
+                        sh.pos += b.len() as u64;
+                        sh.size = sh.size.max(sh.pos);
+                        "ok".into()
+                    }
+                    Err(e) => {
+                        let t = err_at(&e, f);
+                        if let Ok(p) = f.seek(SeekFrom::Current(0)) {
+                            sh.pos = p;
+                            sh.size = sh.size.max(p);
+                        }
+                        t
+                    }
+                }
+            }
+            Op::SeekStart(_) | Op::SeekCur(_) | Op::SeekEnd(_) => {
+                let w = match op {
+                    Op::SeekStart(n) => SeekFrom::Start(*n),
+                    Op::SeekCur(n) => SeekFrom::Current(*n),
+                    Op::SeekEnd(n) => SeekFrom::End(*n),
+                    _ => unreachable!(),
+                };
+                match f.seek(w) {
+                    Ok(p) => {
+                        sh.pos = p;
+                        format!("{}", p)
+                    }
+                    Err(e) => err_tok(&e),
+                }
+            }
+            Op::Truncate => match f.truncate() {
+                Ok(()) => {
+                    sh.size = sh.pos;
+                    "ok".into()
+                }
+                Err(e) => err_tok(&e),
+            },
+            Op::Flush => match f.flush() {
+                Ok(()) => "ok".into(),
+                Err(e) => err_tok(&e),
+            },
+            Op::Reopen => unreachable!(),
+        }
+    })
+}
+
+// ---------------------------------------------------------------------------------------------------------------
+// generator
+// ---------------------------------------------------------------------------------------------------------------
+
+struct Gen {
+    rng: SplitMix64,
+    cs: u64,
+    /// bytes this history may still move (keeps lines of big-cluster volumes cheap for the Lean side)
+    budget: i64,
+    seed_ctr: u32,
+}
+
+impl Gen {
+    fn small(&mut self) -> u64 {
+        *self.rng.pick(&[0u64, 1, 1, 2, 3, 5, 8, 13, 31, 32, 33, 64])
+    }
+
+    /// an interesting absolute offset
+    fn offset(&mut self, sh: &Shadow) -> u64 {
+        let cs = self.cs;
+        let k = self.rng.range(1, 4);
+        let c = match self.rng.below(14) {
+            0 => 0,
+            1 => 1,
+            2 => k * cs - 1,
+            3 => k * cs,
+            4 => k * cs + 1,
+            5 => sh.size.saturating_sub(1),
+            6 => sh.size,
+            7 => sh.size + 1,
+            8 => sh.pos.saturating_sub(1),
+            9 => sh.pos + 1,
+            10 => (sh.size / cs) * cs,
+            11 => ((sh.size + cs - 1) / cs) * cs,
+            12 => self.rng.below(sh.size + 2),
+            _ => self.rng.below(sh.size + cs + 2),
+        };
+        c
+    }
+
+    /// an interesting transfer length at the current position
+    fn length(&mut self, sh: &Shadow) -> usize {
+        let cs = self.cs;
+        let to_boundary = cs - sh.pos % cs;
+        let to_end = sh.size.saturating_sub(sh.pos);
+        let c = match self.rng.below(16) {
+            0 => 0,
+            1 => 1,
+            2 => to_boundary.saturating_sub(1),
+            3 => to_boundary,
+            4 => to_boundary + 1,
+            5 => to_end.saturating_sub(1),
+            6 => to_end,
+            7 => to_end + 1,
+            8 => cs - 1,
+            9 => cs,
+            10 => cs + 1,
+            11 => 2 * cs + self.rng.below(3) - 1,
+            12 => self.rng.below(3 * cs + 2),
+            _ => self.small(),
+        };
+        let c = if (c as i64) > self.budget { self.small() } else { c };
+        self.budget -= c as i64;
+        c as usize
+    }
+
+    fn data(&mut self, n: usize) -> Data {
+        if n <= 16 && self.rng.chance(3, 4) {
+            Data::Hex((0..n).map(|_| self.rng.below(256) as u8).collect())
+        } else {
+            self.seed_ctr = self.seed_ctr.wrapping_add(1 + self.rng.below(200) as u32);
+            Data::Pat(n, self.seed_ctr % 100_000)
+        }
+    }
+
+    fn seek(&mut self, sh: &Shadow) -> Op {
+        if self.rng.chance(1, 7) {
+            // out-of-range and extreme targets
+            return match self.rng.below(14) {
+                0 => Op::SeekStart(u64::from(u32::MAX)),
+                1 => Op::SeekStart(u64::from(u32::MAX) + 1),
+                2 => Op::SeekStart(u64::from(u32::MAX) + 2),
+                3 => Op::SeekStart(u64::MAX),
+                4 => Op::SeekCur(i64::MIN),
+                5 => Op::SeekCur(i64::MAX),
+                6 => Op::SeekEnd(i64::MIN),
+                7 => Op::SeekEnd(i64::MAX),
+                8 => Op::SeekCur(-(sh.pos as i64) - 1),
+                9 => Op::SeekEnd(-(sh.size as i64) - 1),
+                10 => Op::SeekCur((1i64 << 32) - sh.pos as i64),
+                11 => Op::SeekCur((1i64 << 32) - 1 - sh.pos as i64),
+                12 => Op::SeekEnd((1i64 << 32) - sh.size as i64),
+                _ => Op::SeekEnd((1i64 << 32) - 1 - sh.size as i64),
+            };
+        }
+        let target = self.offset(sh) as i64;
+        match self.rng.below(3) {
+            0 => Op::SeekStart(target as u64),
+            1 => Op::SeekCur(target - sh.pos as i64),
+            _ => Op::SeekEnd(target - sh.size as i64),
+        }
+    }
+
+    fn op(&mut self, sh: &Shadow, first: bool) -> Op {
+        if first && self.rng.chance(2, 3) {
+            // start with a file of an interesting size
+            let k = self.rng.below(4);
+            let n = match self.rng.below(5) {
+                0 => k * self.cs,
+                1 => k * self.cs + 1,
+                2 => (k * self.cs + self.cs).saturating_sub(1),
+                3 => self.rng.below(3 * self.cs + 2),
+                _ => self.rng.below(self.cs + 2),
+            };
+            let n = if (n as i64) > self.budget { self.small() } else { n };
+            self.budget -= n as i64;
+            let d = self.data(n as usize);
+            return Op::WriteAll(d);
+        }
+        match self.rng.below(100) {
+            0..=21 => Op::Read(self.length(sh)),
+            22..=31 => Op::ReadExact(self.length(sh)),
+            32..=49 => {
+                let n = self.length(sh);
+                Op::Write(self.data(n))
+            }
+            50..=61 => {
+                let n = self.length(sh);
+                Op::WriteAll(self.data(n))
+            }
+            62..=84 => self.seek(sh),
+            85..=91 => Op::Truncate,
+            92..=94 => Op::Flush,
+            _ => Op::Reopen,
+        }
+    }
+}
+
+fn pick_volume<'v>(rng: &mut SplitMix64, vols: &'v [Volume]) -> &'v Volume {
+    let total: u64 = vols.iter().map(|v| v.weight).sum();
+    let mut x = rng.below(total);
+    for v in vols {
+        if x < v.weight {
+            return v;
+        }
+        x -= v.weight;
+    }
+    &vols[0]
+}
+
+fn run_history(rng: &mut SplitMix64, vol: &Volume, nfiles: usize, out: &mut dyn Write2) {
+    let fs = match catch(|| mount(vol.template.clone())).flatten() {
+        Some(fs) => fs,
+        None => return,
+    };
+    let root = fs.root_dir();
+    let names: Vec<String> = (0..nfiles).map(|i| format!("f{}.bin", i)).collect();
+    let mut slots: Vec<Option<FFile>> = Vec::new();
+    for n in &names {
+        match catch(|| root.create_file(n).ok()).flatten() {
+            Some(f) => slots.push(Some(f)),
+            None => return,
+        }
+    }
+    let free = match catch(|| fs.stats().ok().map(|s| s.free_clusters())).flatten() {
+        Some(f) => f,
+        None => return,
+    };
+    let cs = u64::from(vol.cs);
+    let budget = if cs <= 4096 { 40 * 1024 } else { 6 * 32768 + 4096 };
+    let mut g = Gen { rng: rng.fork(), cs, budget, seed_ctr: rng.below(1000) as u32 };
+    let nops = g.rng.range(5, 40) as usize;
+    let mut shadows = vec![Shadow::default(); nfiles];
+    let mut ops_s = String::new();
+    let mut res_s = String::new();
+    for i in 0..nops {
+        let fi = if nfiles == 1 { 0 } else { g.rng.below(nfiles as u64) as usize };
+        let first = shadows[fi].size == 0 && shadows[fi].pos == 0 && i < 2 * nfiles;
+        let op = if i + 1 == nops { Op::Reopen } else { g.op(&shadows[fi], first) };
+        if i > 0 {
+            ops_s.push(';');
+            res_s.push(';');
+        }
+        if nfiles > 1 {
+            write!(ops_s, "{}:", fi).unwrap();
+        }
+        ops_s.push_str(&op.tok());
+        let mut sh = shadows[fi];
+        let r = exec(&op, &mut slots[fi], &root, &names[fi], &mut sh);
+        shadows[fi] = sh;
+        match r {
+            Some(t) => res_s.push_str(&t),
+            None => {
+                res_s.push_str("E100");
+                break;
+            }
+        }
+    }
+    // dropping the handles flushes them; a panic there must not take the harness down
+    let _ = catch(move || drop(slots));
+    if nfiles == 1 {
+        out.line(&format!("P cursor.hist cs={} fat={} free={} {} => {}", vol.cs, vol.fat, free, ops_s, res_s));
+    } else {
+        out.line(&format!(
+            "P cursor.multi cs={} fat={} free={} files={} {} => {}",
+            vol.cs, vol.fat, free, nfiles, ops_s, res_s
+        ));
+    }
+}
+
+/// tiny indirection so that `run_history` does not need a generic writer
+trait Write2 {
+    fn line(&mut self, s: &str);
+}
+
+struct Out<'a>(&'a mut dyn std::io::Write);
+
+impl Write2 for Out<'_> {
+    fn line(&mut self, s: &str) {
+        writeln!(self.0, "{}", s).unwrap();
+    }
+}
+
+pub fn run(tier: Tier, seed: u64, out: &mut dyn std::io::Write) {
+    let mut rng = SplitMix64::new(seed ^ 0xC02C_02C0_2C02_C02C);
+    let vols = volumes();
+    let mut o = Out(out);
+    let n_hist = tier.pick(3000, 200_000);
+    let n_multi = tier.pick(600, 40_000);
+    for _ in 0..n_hist {
+        let v = pick_volume(&mut rng, &vols);
+        run_history(&mut rng, v, 1, &mut o);
+    }
+    for _ in 0..n_multi {
+        let v = pick_volume(&mut rng, &vols);
+        let k = rng.range(2, 3) as usize;
+        run_history(&mut rng, v, k, &mut o);
+    }
+}
